@@ -79,7 +79,9 @@ func genericReplay(eng *Engine, ob *Obligation, repo, verif string) (reproduced 
 	// 1. model extraction
 	deadline := time.Now().Add(replayModelBudget)
 	script := strings.TrimSuffix(strings.TrimSpace(fc.renderOne(ob, false)), "(check-sat)")
-	sess, solver, err := openModelSession(ob, script, deadline)
+	ground, prefer, nGround := fc.groundPreconditions(spec)
+	detail["precondition_instances"] = nGround
+	sess, solver, err := openModelSession(ob, script, fc.heapTypingAxioms()+ground, prefer, deadline)
 	if err != nil {
 		detail["note"] = "model extraction: " + err.Error()
 		return false, detail
@@ -92,6 +94,11 @@ func genericReplay(eng *Engine, ob *Obligation, repo, verif string) (reproduced 
 	}
 	m := &modelReader{fc: fc, s: sess, objs: map[string]*rObj{}, blocks: map[string]*rBlock{}}
 	m.wmark = m.getInt("H0_W")
+	if n, kept := m.refinePreconditions(spec); n > 0 {
+		detail["precondition_refinement"] = fmt.Sprintf("%d instances over the candidate's own ranges; refined candidate accepted: %v", n, kept)
+		m.wmark = m.getInt("H0_W")
+	}
+	m.pin("H0_W", &sx{atom: bignum(m.wmark)}) // later shaping steps must not move the watermark
 	g := &genCtx{pkg: fn.Pkg.Pkg, imports: map[string]string{}}
 	plan := &replayPlan{g: g, fn: fn, m: m, kind: ob.Kind, name: ob.Name, mode: mode, variants: 1}
 	names := paramNames(spec, sig)
@@ -276,7 +283,7 @@ func replayOutcome(out string) string {
 // obligation was not decided (unknown / timeout: quantified background axioms), z3 with model-based quantifier
 // instantiation switched off stops after E-matching with `unknown` and a CANDIDATE model, which is good enough to try on
 // the real code (only the run decides).
-func openModelSession(ob *Obligation, script string, deadline time.Time) (*smtSession, string, error) {
+func openModelSession(ob *Obligation, script, looseExtra, prefer string, deadline time.Time) (*smtSession, string, error) {
 	type cand struct {
 		name      string
 		args      []string
@@ -289,6 +296,8 @@ func openModelSession(ob *Obligation, script string, deadline time.Time) (*smtSe
 	}
 	loose := []cand{
 		{"z3-new/mbqi=false", []string{"z3-new", "-in", "smt.mbqi=false"}, true},
+		// the old arithmetic core gives up on nonlinear terms (x % len) quickly instead of searching for minutes
+		{"z3-new/mbqi=false,arith.solver=2", []string{"z3-new", "-in", "smt.mbqi=false", "smt.auto_config=false", "smt.arith.solver=2"}, true},
 		{"z3/mbqi=false", []string{"z3", "-in", "smt.mbqi=false"}, true},
 	}
 	var order []cand
@@ -314,7 +323,7 @@ func openModelSession(ob *Obligation, script string, deadline time.Time) (*smtSe
 			break
 		}
 		// one solver may use at most 40% of what is left (the model queries need the rest), later ones at most 20 s
-		per := remaining * 2 / 5
+		per := remaining * 3 / 10
 		if i > 0 && per > 20*time.Second {
 			per = 20 * time.Second
 		}
@@ -323,12 +332,30 @@ func openModelSession(ob *Obligation, script string, deadline time.Time) (*smtSe
 			last = err.Error()
 			continue
 		}
-		if err := s.write(script); err != nil {
+		sc := script
+		if c.candidate {
+			sc += looseExtra // replay_ground.go: heap typing axioms + ground instances of the preconditions
+		}
+		if d := os.Getenv("GOVC_REPLAY_DEBUG"); d != "" {
+			os.WriteFile(filepath.Join(d, "replay-session-"+mangle(c.name)+".smt2"), []byte(sc+"(push 1)\n"+prefer+"(check-sat)\n"), 0o644)
+		}
+		if err := s.write(sc); err != nil {
 			s.close()
 			last = err.Error()
 			continue
 		}
-		r := s.checkSat()
+		r := ""
+		if c.candidate && strings.TrimSpace(prefer) != "" {
+			// first with the preference for short quantifier ranges, then without
+			s.write("(push 1)\n" + prefer)
+			if r = s.checkSat(); r != "sat" && r != "unknown" {
+				s.write("(pop 1)\n")
+				r = ""
+			}
+		}
+		if r == "" {
+			r = s.checkSat()
+		}
 		if r == "sat" || (r == "unknown" && c.candidate) {
 			if _, err := s.getValues([]string{"H0_W"}); err == nil {
 				s.deadline = deadline
